@@ -45,6 +45,7 @@ type HarnessSpec struct {
 	RaceCheck bool                 `json:"race_check"`
 	Typecheck []string             `json:"typecheck"` // "goos/goarch" targets: the current tree must load (type-check + SSA) for each
 	Solver  []string               `json:"solver"`
+	BMC     *BMCSpec               `json:"bmc"`
 }
 
 type SourcePatch struct {
@@ -73,9 +74,17 @@ const modPath = "github.com/deepteams/webp"
 var (
 	verifDir = "/verif"
 	repoDir  = "/repo"
+	outDir   = "/verif" // evidence/ and replay/ are written below it
 )
 
 func main() {
+	// scratch runs (mutant testing in a worktree) only: the registered commands never set these
+	if d := os.Getenv("VERIF_REPO"); d != "" {
+		repoDir = d
+	}
+	if d := os.Getenv("VERIF_OUT"); d != "" {
+		outDir = d
+	}
 	prop := flag.String("prop", "", "property id (C01..C20)")
 	tier := flag.String("tier", "quick", "quick|thorough")
 	run := flag.String("run", "", "debug: run one harness pkg:Fn")
@@ -88,7 +97,7 @@ func main() {
 	noReplay := flag.Bool("noreplay", false, "skip native replay of counterexamples")
 	redirS := flag.String("redirect", "", "debug: from=to,from=to")
 	ufS := flag.String("uf", "", "debug: comma separated functions to replace by uninterpreted functions")
-	flag.StringVar(&repoDir, "repo", "/repo", "repository directory")
+	flag.StringVar(&repoDir, "repo", repoDir, "repository directory")
 	flag.StringVar(&verifDir, "verif", "/verif", "verif directory")
 	flag.Parse()
 	if t := os.Getenv("VERIF_TIER"); t != "" && *tier == "quick" {
@@ -368,6 +377,7 @@ type job struct {
 type jobResult struct {
 	job job
 	res *sym.Result
+	bmc *bmcReplay
 }
 
 func runProp(prop, tier string, workers int, debug bool, only string, noReplay bool) int {
@@ -432,7 +442,7 @@ func runProp(prop, tier string, workers int, debug bool, only string, noReplay b
 			res := &sym.Result{Harness: h.Fn + "[" + r.tgt + "]", Wall: r.dt, Covers: map[string]bool{}, Obligations: 1}
 			if r.err != nil {
 				tcFail++
-				dir := filepath.Join(verifDir, "replay", prop)
+				dir := filepath.Join(outDir, "replay", prop)
 				os.MkdirAll(dir, 0o755)
 				path := filepath.Join(dir, "typecheck-"+strings.ReplaceAll(r.tgt, "/", "_")+".json")
 				b, _ := json.MarshalIndent(map[string]interface{}{"property": prop, "typecheck": r.tgt, "failed": r.err.Error()}, "", " ")
@@ -446,7 +456,7 @@ func runProp(prop, tier string, workers int, debug bool, only string, noReplay b
 				res.Nondets = 1
 				fmt.Printf("  type-check %-16s ok (%.1fs)\n", r.tgt, r.dt.Seconds())
 			}
-			tcResults = append(tcResults, jobResult{job{h, nil}, res})
+			tcResults = append(tcResults, jobResult{job{h, nil}, res, nil})
 		}
 	}
 	if len(jobs) == 0 && len(tcResults) == 0 {
@@ -483,6 +493,11 @@ func runProp(prop, tier string, workers int, debug bool, only string, noReplay b
 		go func() {
 			defer wg.Done()
 			for j := range jc {
+				if j.h.BMC != nil {
+					r, rep := runBMCInstance(progs[j.h.Arch], j.h, j.args)
+					rc <- jobResult{j, r, rep}
+					continue
+				}
 				to := time.Duration(j.h.Timeout) * time.Second
 				if to == 0 {
 					to = 300 * time.Second
@@ -493,7 +508,7 @@ func runProp(prop, tier string, workers int, debug bool, only string, noReplay b
 				}
 				e, err := sym.NewEngine(progs[j.h.Arch], sym.Options{Timeout: qto, Debug: debug, Unwind: j.h.Unwind, MaxPaths: j.h.MaxPaths, MaxViol: 1, SolverArgv: j.h.Solver})
 				if err != nil {
-					rc <- jobResult{j, &sym.Result{Harness: j.h.Fn, Args: j.args, Err: err.Error()}}
+					rc <- jobResult{j, &sym.Result{Harness: j.h.Fn, Args: j.args, Err: err.Error()}, nil}
 					continue
 				}
 				for _, u := range j.h.UF {
@@ -519,7 +534,7 @@ func runProp(prop, tier string, workers int, debug bool, only string, noReplay b
 				}
 				r := e.RunHarness(pkgPath(j.h.Pkg), j.h.Fn, j.args, to)
 				e.Close()
-				rc <- jobResult{j, r}
+				rc <- jobResult{j, r, nil}
 			}
 		}()
 	}
@@ -593,10 +608,16 @@ func runProp(prop, tier string, workers int, debug bool, only string, noReplay b
 				continue
 			}
 			// write replay file and confirm natively
-			path := writeReplay(prop, r.job, v, vi)
+			var path string
 			confirmed := true
 			out := ""
-			if !noReplay && !r.job.h.NoReplay {
+			if v.Kind == "bmc" {
+				path = writeBMCReplay(prop, r.bmc, r.res.Args)
+				fmt.Printf("  bmc counterexample schedule:\n    %s\n", strings.Join(v.Stack, "\n    "))
+				if !noReplay {
+					confirmed, out = bmcNativeReplay(path)
+				}
+			} else if path = writeReplay(prop, r.job, v, vi); !noReplay && !r.job.h.NoReplay {
 				site := r.job.h.Fn + "|" + v.Pos
 				if replayed[site] >= 2 {
 					fmt.Printf("  further counterexample at an already confirmed site (not replayed): %s %v %s\n", r.job.h.Fn, r.res.Args, v.Pos)
@@ -661,7 +682,7 @@ type replayDoc struct {
 }
 
 func writeReplay(prop string, j job, v sym.Violation, n int) string {
-	dir := filepath.Join(verifDir, "replay", prop)
+	dir := filepath.Join(outDir, "replay", prop)
 	os.MkdirAll(dir, 0o755)
 	var as []string
 	for _, a := range j.args {
@@ -683,8 +704,12 @@ func nativeReplay(path string) (bool, string) {
 	}
 	var tc struct {
 		Typecheck string `json:"typecheck"`
+		BMC       string `json:"bmc"`
 	}
-	if json.Unmarshal(b, &tc) == nil && tc.Typecheck != "" {
+	if json.Unmarshal(b, &tc) == nil && tc.BMC != "" {
+		return bmcNativeReplay(path)
+	}
+	if tc.Typecheck != "" {
 		parts := strings.SplitN(tc.Typecheck, "/", 2)
 		cmd := exec.Command("go", "build", "./...")
 		cmd.Dir = repoDir
@@ -938,9 +963,9 @@ func writeEvidence(prop, tier string, results []jobResult, wall time.Duration, n
 			"explanation":         "bounded symbolic execution of the real functions (go/ssa of the working tree, GOARCH per harness) with every obligation decided by the SMT solver for all values of the symbolic inputs inside the stated shape bounds",
 		},
 	}
-	os.MkdirAll(filepath.Join(verifDir, "evidence"), 0o755)
+	os.MkdirAll(filepath.Join(outDir, "evidence"), 0o755)
 	b, _ := json.MarshalIndent(ev, "", " ")
-	os.WriteFile(filepath.Join(verifDir, "evidence", prop+".json"), b, 0o644)
+	os.WriteFile(filepath.Join(outDir, "evidence", prop+".json"), b, 0o644)
 }
 
 func round2(f float64) float64 { return float64(int64(f*100+0.5)) / 100 }
